@@ -88,7 +88,7 @@ package at
 //@ ext (seata.apache.org/seata-go/pkg/datasource/sql/types.TableMeta).GetPrimaryKeyOnlyName
 //@   ensures true
 //@ func (*baseExecutor).buildLockKey
-//@   prop C03
+//@   prop C03 C01
 //@   local lockKeys bytes.Buffer
 //@   local keys []string
 //@   requires records != nil
@@ -133,28 +133,28 @@ package at
 //@   trusted
 //@   ensures true
 //@ func (*insertExecutor).afterImage
-//@   prop C03
+//@   prop C03 C01
 //@   requires i != nil && i.execContext != nil && i.execContext.TxCtx != nil && i.execContext.TxCtx.LockKeys != nil && ctx != nil
 //@   modifies entries(i.execContext.TxCtx.LockKeys)
 //@   ensures key-of-the-image-is-collected: result1 == nil && result0 != nil ==> called("buildLockKey#1") && callarg("buildLockKey#1", 1) == result0 && haskey(i.execContext.TxCtx.LockKeys, callres("buildLockKey#1", 0))
 //@   at call buildLockKey#1: assert key-from-this-tables-meta: metaData != nil
 //@   may_panic
 //@ func (*updateExecutor).beforeImage
-//@   prop C03
+//@   prop C03 C01
 //@   requires u != nil && u.execContext != nil && u.execContext.TxCtx != nil && u.execContext.TxCtx.LockKeys != nil && ctx != nil
 //@   modifies entries(u.execContext.TxCtx.LockKeys)
 //@   ensures key-of-the-image-is-collected: result1 == nil && result0 != nil ==> called("buildLockKey#1") && callarg("buildLockKey#1", 1) == result0 && haskey(u.execContext.TxCtx.LockKeys, callres("buildLockKey#1", 0))
 //@   at call buildLockKey#1: assert key-from-this-tables-meta: metaData != nil
 //@   may_panic
 //@ func (*deleteExecutor).beforeImage
-//@   prop C03
+//@   prop C03 C01
 //@   requires d != nil && d.execContext != nil && d.execContext.TxCtx != nil && d.execContext.TxCtx.LockKeys != nil && ctx != nil
 //@   modifies entries(d.execContext.TxCtx.LockKeys)
 //@   ensures key-of-the-image-is-collected: result1 == nil && result0 != nil ==> called("buildLockKey#1") && callarg("buildLockKey#1", 1) == result0 && haskey(d.execContext.TxCtx.LockKeys, callres("buildLockKey#1", 0))
 //@   at call buildLockKey#1: assert key-from-this-tables-meta: metaData != nil
 //@   may_panic
 //@ func (*insertOnUpdateExecutor).afterImage
-//@   prop C03
+//@   prop C03 C01
 //@   requires i != nil && i.execContext != nil && i.execContext.TxCtx != nil && i.execContext.TxCtx.LockKeys != nil && ctx != nil
 //@   modifies entries(i.execContext.TxCtx.LockKeys)
 //@   ensures key-of-the-image-is-collected: result1 == nil && result0 != nil ==> called("buildLockKey#1") && callarg("buildLockKey#1", 1) == result0 && haskey(i.execContext.TxCtx.LockKeys, callres("buildLockKey#1", 0))
@@ -179,21 +179,21 @@ package at
 //@   modifies *self, image.index
 //@   ensures true
 //@ func (*insertExecutor).ExecContext
-//@   prop C03
+//@   prop C03 C01
 //@   requires i.execContext != nil && i.execContext.TxCtx != nil && i.execContext.TxCtx.LockKeys != nil && i.execContext.TxCtx.RoundImages != nil && ctx != nil && f != nil
 //@   modifies heap.all, ghost.all
 //@   ensures statement-before-success: result1 == nil ==> called("callback:f#1") && callres("callback:f#1", 1) == nil && result0 == callres("callback:f#1", 0)
 //@   ensures locked-image-is-the-recorded-one: result1 == nil ==> called("afterImage#1") && callres("afterImage#1", 1) == nil && called("AppendAfterImage#1") && callarg("AppendAfterImage#1", 1) == callres("afterImage#1", 0)
 //@   may_panic
 //@ func (*updateExecutor).ExecContext
-//@   prop C03
+//@   prop C03 C01
 //@   requires u.execContext != nil && u.execContext.TxCtx != nil && u.execContext.TxCtx.LockKeys != nil && u.execContext.TxCtx.RoundImages != nil && ctx != nil && f != nil
 //@   modifies heap.all, ghost.all
 //@   ensures statement-before-success: result1 == nil ==> called("callback:f#1") && callres("callback:f#1", 1) == nil && result0 == callres("callback:f#1", 0)
 //@   ensures locked-image-is-the-recorded-one: result1 == nil ==> called("beforeImage#1") && callres("beforeImage#1", 1) == nil && called("AppendBeofreImage#1") && callarg("AppendBeofreImage#1", 1) == callres("beforeImage#1", 0)
 //@   may_panic
 //@ func (deleteExecutor).ExecContext
-//@   prop C03
+//@   prop C03 C01
 //@   requires d.execContext != nil && d.execContext.TxCtx != nil && d.execContext.TxCtx.LockKeys != nil && d.execContext.TxCtx.RoundImages != nil && ctx != nil && f != nil
 //@   modifies heap.all, ghost.all
 //@   ensures statement-before-success: result1 == nil ==> called("callback:f#1") && callres("callback:f#1", 1) == nil && result0 == callres("callback:f#1", 0)
@@ -217,7 +217,7 @@ package at
 // C01: what the images record. A NULL column is recorded as nil - never as the zero value of its type,
 // which rollback would then write back in place of the NULL - and a present value as itself.
 //@ func getSqlNullValue
-//@   prop C01
+//@   prop C01 C03
 //@   ensures null-string-stays-null: isT(value, sql.NullString) && !value.(sql.NullString).Valid ==> result == nil
 //@   ensures null-float-stays-null: isT(value, sql.NullFloat64) && !value.(sql.NullFloat64).Valid ==> result == nil
 //@   ensures null-bool-stays-null: isT(value, sql.NullBool) && !value.(sql.NullBool).Valid ==> result == nil
